@@ -19,7 +19,7 @@ Not decided: races between refill and callers as such; server behaviour.
 from ..inline import inline_view
 from ..mir import AnchorLost
 from ..dataflow import DisjFlow
-from ..util import dj_of, enum_variant_of_operand, df_of, fn_short, in_set, operand_path, path_last, backward_slice, field_writers, callers_keys, switch_on, switch_edges, yields, _rv_locals
+from ..util import closure_family, dj_of, enum_variant_of_operand, df_of, fn_short, in_set, operand_path, path_last, backward_slice, field_writers, callers_keys, switch_on, switch_edges, yields, _rv_locals
 
 P = "scylla::network::connection_pool::"
 VK = "scylla::network::connection::VerifiedKeyspaceName"
@@ -169,7 +169,7 @@ def r3(ctx, facts):
     r.instance("pool-join_all", len(ja) == 1, "the pool's USE future must await join_all over all current connections", pb.span)
     if ja:
         _, calls, _ = backward_slice(pb, ja[0].args[0])
-        uk = pb.calls_to("Connection::use_keyspace")
+        uk = [c for fb in closure_family(facts, pb) for c in fb.calls_to("Connection::use_keyspace")]
         r.instance("pool-all-connections", bool(uk), "every connection of the snapshot must get a USE", ja[0].span)
     sp = facts.find(r"^scylla::network::connection_pool::PoolRefiller::use_keyspace::\{closure#1\}$")
     if sp:
